@@ -45,6 +45,64 @@ Y2200_US = 7_258_118_400_000_000
 FUTURE_GRID = [BASE_US, BASE_US + 1, BASE_US - 3_600_000_000, Y2200_US, Y2200_US + 1, Y2200_US - 1, Y2200_US + 86_400_000_000, BASE_US + 3_600_000_000]
 
 
+# A pool of strings that tend to mean something to some layer (csv, regex, glob, python, unicode, the row layout)
+# without being invalid anywhere: measurement names, tag keys, tag values and field keys are drawn from it per history.
+NASTY = [
+    "a", "a ", " a", "A", "a.b", "a,b", "a b", "a*", "a?", "[a]", "a%", "(a)", "a+", "^a$", "\\d", "a\\b",
+    "\u00e4", "a\u0308", "\uff41", "\u00df", "ss", "SS", "\u0130", "i", "I", "\u212a", "K", "\ufb01", "fi",
+    "a_", "_a", "__a__", "class", "from_", "None", "none", "True", "0", "-1", "1.5", "1e3", "nan", "inf", "-0.0",
+    "t_a", "f_a", "_tag_a", "_field_a", "_time", "time", "measurement", "tags", "fields", "tags.a", "fields.a", "_default", "_measurement",
+    "a\tb", "a\nb", "a\r\nb", "\ra", "a\r", '"a"', "'a'", 'a"b', "a\\", "a/b", "a;b", "a|b", "a=b", "a:b", "{a}", "$a", "#a", "a#b", "--", "",
+    "a" * 300, "\ufeffa", "a\u200b", "\U0001f600", "\u4e2d\u6587", "\u0627\u0644", "2021-03-04T05:06:07+00:00", "a\x00b", "\x1f", "a\x7fb",
+]
+
+
+# instants before the epoch with a fractional second (negative timestamps with microseconds), and the ends of the
+# supported range (years 1700 and 2239)
+OLD_GRID = [-3_786_825_599_876_543, -3_786_825_599_876_542, -631_151_999_000_001, -1, -999_999, -1_000_001, -86_399_999_999, BASE_US]
+EDGE_GRID = [-8_520_336_000_000_000 + 5, -8_520_336_000_000_000 + 6, 8_520_336_000_000_000 - 7, 8_520_336_000_000_000 - 6, BASE_US, 0]
+
+
+def wild_vocabulary(rng, n=4, allow_empty=False):
+    """n strings from NASTY plus, for each, a near neighbour (a variant that some normalisation would merge with it)."""
+    picks = rng.sample([x for x in NASTY if allow_empty or x != ""], n)
+    out = []
+    for x in picks:
+        out.append(x)
+        r = rng.random()
+        if r < 0.2:
+            out.append(x + " ")
+        elif r < 0.35:
+            out.append(x.upper() if x.upper() != x else x.lower())
+        elif r < 0.5:
+            out.append(x[:-1] if len(x) > 1 else x + x)
+        elif r < 0.6:
+            out.append("_" + x)
+        elif r < 0.7:
+            out.append(x + "_")
+    seen, res = set(), []
+    for x in out:
+        if x not in seen:
+            seen.add(x)
+            res.append(x)
+    return res
+
+
+def make_wild(prof, rng):
+    """Turn a profile into a 'wild' one: its names, keys and values come from NASTY (a small set per history, so
+    that points still collide), numbers from a pool of awkward floats."""
+    prof.meas = [x for x in wild_vocabulary(rng, 3) if x != "_none"] or ["m0"]
+    prof.extra_meas = []
+    prof.extra_tag_keys = [x for x in wild_vocabulary(rng, 2, allow_empty=True)]
+    prof.extra_field_keys = [x for x in wild_vocabulary(rng, 2, allow_empty=True)]
+    prof.extra_tag_vals = [x for x in wild_vocabulary(rng, 3, allow_empty=True) if x != "_none"]
+    prof.extra_field_vals = list(prof.extra_field_vals) + rng.sample([1e-9, 1e22, -1e-300, 5e-324, 1.0000000000000002, 123456789.123456789, 0.1, -2.5, float("inf"), float("-inf"), 3, -7], 3)
+    if prof.grid is None:
+        prof.grid = rng.choice([None, None, EPOCH_GRID, FUTURE_GRID, OLD_GRID, EDGE_GRID])
+    prof.wild = True
+    return prof
+
+
 def gen_point(rng, meas=MEAS, allow_no_time=False, extra_tag_vals=(), extra_meas=(), extra_tag_keys=(), extra_field_keys=(), grid=None, extra_field_vals=()):
     """A point spec: {"t": ("T",us,off)|None, "m": str|None, "tags", "fields"}."""
     p = {}
